@@ -17,6 +17,7 @@ import threading
 import time as real_time
 
 from harness import tlc
+from harness import refbrine
 from harness.common import Check, main_wrapper
 
 PID = "C18"
@@ -204,7 +205,8 @@ class Fixture(object):
 
 
 def malformed_payload(kind, brine, rnd):
-    D = brine.dump
+    from harness import refbrine
+    D = refbrine.dump          # the requests are built with an encoder of the published format that is not the code under test
     return {
         "wrong_magic": lambda: D(("NOPE", "register", (("FOO",), 1))),
         "unknown_cmd": lambda: D(("RPYC", "explode", ())),
@@ -225,9 +227,18 @@ def malformed_payload(kind, brine, rnd):
 def replay(chk, beh, mode, rnd, interval):
     """returns list of (key, message)"""
     fx = Fixture(mode, interval)
-    D = fx.brine.dump
+    from harness import refbrine
+    D = refbrine.dump
     bad = []
     labels = []
+    # ports are whatever value the registering server sends (the registry does not look at them): in some replays one of the
+    # specification's ports stands for an unusual - but serializable - value
+    weird = rnd.choice([None, None, 10 ** 254, 10 ** 255, 10 ** 256, -7, 2.5, "eighty", b"80", (8, 0), 2 ** 70])
+    wport = rnd.choice([1, 2, 3])
+
+    def pm(a):
+        a = tuple(a)
+        return (a[0], weird) if (weird is not None and a[1] == wport) else a
     try:
         for i in range(1, len(beh)):
             label, st = beh[i]
@@ -242,10 +253,10 @@ def replay(chk, beh, mode, rnd, interval):
                 a = addr_of(label)
                 ns = sorted(n for n in st["tab"] if st["tab"][n][a] == st["now"] and n in names_in(label))
                 ns = names_in(label)
-                status, rep = fx.request(D(("RPYC", "register", (tuple(NAMEMAP[n] for n in ns), a[1]))), a[0])
+                status, rep = fx.request(D(("RPYC", "register", (tuple(NAMEMAP[n] for n in ns), pm(a)[1]))), a[0])
             elif name == "Unregister":
                 a = addr_of(label)
-                status, rep = fx.request(D(("RPYC", rnd.choice(["unregister", "UNREGISTER"]), (a[1],))), a[0])
+                status, rep = fx.request(D(("RPYC", rnd.choice(["unregister", "UNREGISTER"]), (pm(a)[1],))), a[0])
             elif name == "Query":
                 n = label.split('"')[1]
                 status, rep = fx.request(D(("RPYC", "query", (rnd.choice([NAMEMAP[n], n, n.lower()]),))), "querier")
@@ -263,20 +274,20 @@ def replay(chk, beh, mode, rnd, interval):
                 bad.append(("loop-hang", "%s the main loop blocks for ever on a client that sends nothing" % where))
                 break
             # the table
-            want = {(n, a): float(t) for n in st["tab"] for a, t in st["tab"][n].items() if t != -1}
+            want = {(n, pm(a)): float(t) for n in st["tab"] for a, t in st["tab"][n].items() if t != -1}
             got = fx.table()
             if got != want:
                 bad.append(("table:%s" % name, "%s the service table is %s, the specification says %s" % (where, got, want)))
                 break
             # notifications
-            wn = [tuple(x) for x in st["notes"]]
+            wn = [((x[0], x[1], pm(x[2])) if len(x) > 2 else tuple(x)) for x in st["notes"]]
             gn = list(fx.notes)
             if name == "Query":
-                stale = {a for a, t in prev["tab"][label.split('"')[1]].items() if t != -1 and t < prev["now"] - interval}
-                if sorted(gn) != sorted(("removed", label.split('"')[1], a) for a in stale):
-                    bad.append(("notes:Query", "%s pruning notified %s, expected removal of %s" % (where, gn, sorted(stale))))
+                stale = {pm(a) for a, t in prev["tab"][label.split('"')[1]].items() if t != -1 and t < prev["now"] - interval}
+                if sorted(gn, key=repr) != sorted((("removed", label.split('"')[1], a) for a in stale), key=repr):
+                    bad.append(("notes:Query", "%s pruning notified %s, expected removal of %s" % (where, gn, sorted(stale, key=repr))))
                     break
-            elif sorted(gn) != sorted(wn):
+            elif sorted(gn, key=repr) != sorted(wn, key=repr):
                 bad.append(("notes:%s" % name, "%s notifications %s, the specification says %s" % (where, gn, wn)))
                 break
             # the reply
@@ -286,11 +297,11 @@ def replay(chk, beh, mode, rnd, interval):
                     break
             elif name == "Query":
                 r = st["reply"]
-                fresh = {tuple(a) for a in r["set"]}
-                times = {tuple(a): t for a, t in r["times"].items()} if isinstance(r["times"], dict) else {}
+                fresh = {pm(a) for a in r["set"]}
+                times = {pm(a): t for a, t in r["times"].items()} if isinstance(r["times"], dict) else {}
                 if status != "ok" or type(rep) is not tuple or {tuple(x) for x in rep} != fresh or len(rep) != len(fresh):
                     bad.append(("reply:Query:set", "%s the query was answered %s %r, live registrations are %s" % (
-                        where, status, rep, sorted(fresh))))
+                        where, status, rep, sorted(fresh, key=repr))))
                     break
                 ts = [times[tuple(x)] for x in rep]
                 if ts != sorted(ts):
@@ -352,7 +363,7 @@ def real_socket_run(chk, mode):
             for p in (b"", b"\xff\xfe", struct.pack("!B", 7)):
                 s.sendto(p, ("127.0.0.1", port))
             from rpyc.core import brine
-            s.sendto(brine.dump(("RPYC", 7, ())), ("127.0.0.1", port))
+            s.sendto(refbrine.dump(("RPYC", 7, ())), ("127.0.0.1", port))
             s.close()
         r2 = cli.discover("FOO")
         cli.unregister(1234)
